@@ -1,4 +1,4 @@
-import Amshan.Lemmas.GenCode
+import Amshan.Lemmas.GenCodeBackOff
 /-
   C18 (tie by translation) — ExponentialBackOff.failure / reset / current_delay_sec and
   ConnectionManager._get_back_off_time, mechanically translated from the source, equal the model.
